@@ -35,14 +35,17 @@ def run(ctx):
     n = 70 if ctx.tier == "quick" else None
     reqs, resolvers, metas = [], [], []
     dcases = []
-    for alg, enc in E.combos(rng, n):
+    # always present: the empty plaintext and a one-octet plaintext with zip=DEF (the stream of "" is 03 00, not nothing)
+    forced = [("dir", "A128GCM", b"", True), ("A128KW", "A128CBC-HS256", b"", True), ("dir", "A256GCM", b"x", True), ("A256KW", "A128GCM", b"", False)]
+    todo = [(a, e_, None, None) for a, e_ in E.combos(rng, n)] + forced
+    for alg, enc, forced_pt, forced_zip in todo:
         kn = E.key_name(alg, enc, rng)
         sender = K.key(E.SENDER[kn], private=True) if alg.startswith("ECDH-1PU") else None
         priv = K.key(kn, private=True)
         for ser in ("compact", "flat", "general"):
-            pt = rng.choice(E.PLAINTEXTS)
+            pt = rng.choice(E.PLAINTEXTS) if forced_pt is None else forced_pt
             prot = {"enc": enc}
-            if rng.random() < 0.35:
+            if (rng.random() < 0.35) if forced_zip is None else forced_zip:
                 prot["zip"] = "DEF"
             extra = rng.choice([{}, {"apu": "QWxpY2U", "apv": "Qm9i"}, {"apv": "Qg"}]) if alg.startswith("ECDH") else rng.choice([{}, {"typ": "x"}, {"kid": "k"}])
             aad = rng.choice([b"aad", b"\x00\x01"]) if ser != "compact" and rng.random() < 0.5 else None
